@@ -90,6 +90,87 @@ def model_line(case):
     return "C10 extract " + wire.line(case["fields"], case["data"])
 
 
+_SHADOW = None
+
+
+def shadow():
+    """De-cythonised anchored kernels of the working tree's compiled.pyx (None when unavailable)."""
+    global _SHADOW
+    if _SHADOW is None:
+        try:
+            from .. import pyxshadow
+
+            _SHADOW = pyxshadow.load(core.REPO)
+        except Exception as e:
+            _SHADOW = ({}, {"*": "shadow could not be loaded: %s" % e})
+    return _SHADOW
+
+
+def shadow_run(case):
+    """Run one case on the shadow. Returns {'ok':..}/{'raises':..}/{'oob':..} or None when unavailable."""
+    import numpy
+
+    from .. import c10_worker, pyxshadow
+
+    funcs, _ = shadow()
+    name = {"collect": "collect_cython", "extract": "extract_dict_columns", "width": "calculate_data_width"}[case["fn"]]
+    if name not in funcs:
+        return None
+    real = sys.modules.get("orso.compute.compiled")
+
+    class _Proxy:
+        collect_cython = staticmethod(funcs.get("collect_cython"))
+        extract_dict_columns = staticmethod(funcs.get("extract_dict_columns"))
+        calculate_data_width = staticmethod(funcs.get("calculate_data_width"))
+
+    import orso.compute as oc
+
+    saved = getattr(oc, "compiled", None)
+    sys.modules["orso.compute.compiled"] = _Proxy
+    oc.compiled = _Proxy
+    try:
+        return {"ok": json.loads(json.dumps(c10_worker.run(case) if case["fn"] == "width" else c10_worker.run(case)))}
+    except pyxshadow.MemoryUnsafe as e:
+        return {"oob": str(e)}
+    except Exception as e:
+        return {"raises": type(e).__name__}
+    finally:
+        if real is not None:
+            sys.modules["orso.compute.compiled"] = real
+        if saved is not None:
+            oc.compiled = saved
+
+
+def judge(c, res):
+    """The property evaluated on one helper result ({'ok'..}/{'raises'..}/{'died'..}/{'oob'..}). Returns clause or None."""
+    if "died" in res:
+        return "terminated the interpreter (exit status %s)" % res["died"]
+    if "oob" in res:
+        return "reads outside a row: " + ("a row is not a tuple" if any(k != "t" for k in c.get("kinds", [])) else
+                                          "a row is shorter than the first row" if c["fn"] == "collect" else res["oob"])
+    if c["fn"] == "collect":
+        if not well_formed_args(c):
+            return None if "raises" in res else "a malformed argument did not raise a Python exception"
+        want = py_collect([tuple(r) for r in c["rows"]], c["cols"], c.get("limit", -1))
+        got = ("raises", res["raises"]) if "raises" in res else ("ok", res["ok"])
+        if want[0] == "raises":
+            return None if got[0] == "raises" else "a column index outside 0..width-1 did not raise"
+        if got != want:
+            return "collected columns differ from rows[j][columns[i]]" if got[0] == "ok" else "raised %s on a valid request" % got[1]
+        return None
+    if c["fn"] == "width":
+        if c.get("arg", "ndarray") != "ndarray":
+            return None if "raises" in res else "a malformed argument did not raise a Python exception"
+        want = max([4] + [len(str(v)) for v in c["values"] if v is not None])
+        return None if res.get("ok") == want else "display width is not the longest rendered non-null value (floor 4)"
+    if c.get("fields_arg", "tuple") != "tuple" or c.get("data_arg"):
+        return None if "raises" in res else "a malformed argument did not raise a Python exception"
+    want = [c["data"].get(f) if isinstance(f, str) else None for f in c["fields"]]
+    if "raises" in res or res["ok"] != json.loads(json.dumps(want)):
+        return "extracted fields differ from the dictionary's values / null"
+    return None
+
+
 def evaluate(ctx, cases):
     """cases: safe to run in the shared worker."""
     results = run_worker(cases)
@@ -107,43 +188,24 @@ def evaluate(ctx, cases):
     for i, (c, res) in enumerate(zip(cases, results)):
         ctx.case(c, nontrivial=bool(c.get("rows") or c.get("values") or c.get("fields")))
         ctx.hit("fn:" + c["fn"])
-        clause = None
-        if "died" in res:
-            clause = "terminated the interpreter (exit status %s)" % res["died"]
-        elif c["fn"] == "collect":
+        if c["fn"] == "collect":
             ctx.hit("cols:%d" % min(len(c["cols"]), 4))
-            if not well_formed_args(c):
-                ctx.hit("malformed-arg")
-                if "raises" not in res:
-                    clause = "a malformed argument did not raise a Python exception"
-            else:
-                want = py_collect([tuple(r) for r in c["rows"]], c["cols"], c.get("limit", -1))
-                got = ("raises", res["raises"]) if "raises" in res else ("ok", res["ok"])
-                ctx.hit("outcome:" + want[0])
-                if want[0] == "raises":
-                    if got[0] != "raises":
-                        clause = "a column index outside 0..width-1 did not raise"
-                elif got != want:
-                    clause = "collected columns differ from rows[j][columns[i]]" if got[0] == "ok" else "raised %s on a valid request" % got[1]
-        elif c["fn"] == "width":
-            if c.get("arg", "ndarray") != "ndarray":
-                if "raises" not in res:
-                    clause = "a malformed argument did not raise a Python exception"
-            else:
-                want = max([4] + [len(str(v)) for v in c["values"] if v is not None])
-                if res.get("ok") != want:
-                    clause = "display width is not the longest rendered non-null value (floor 4)"
-        else:
-            if c.get("fields_arg", "tuple") != "tuple" or c.get("data_arg"):
-                if "raises" not in res:
-                    clause = "a malformed argument did not raise a Python exception"
-            else:
-                want = [c["data"].get(f) if isinstance(f, str) else None for f in c["fields"]]
-                if "raises" in res or res["ok"] != json.loads(json.dumps(want)):
-                    clause = "extracted fields differ from the dictionary's values / null"
+            ctx.hit("malformed-arg" if not well_formed_args(c) else "well-formed")
+        clause = judge(c, res)
         if clause is not None:
             ctx.fail(c, clause, impl=res, model=mouts.get(i))
             continue
+        sres = shadow_run(c)
+        if sres is not None:
+            ctx.hit("shadow-executed")
+            sclause = judge(c, sres)
+            if sclause is not None:
+                ctx.fail(c, sclause, impl={"shadow execution of compiled.pyx (source)": sres, "binary": res}, model=mouts.get(i),
+                         detail="the working tree's compiled.pyx, executed through harness/pyxshadow.py, violates the property; the binary in the tree was not built from this source")
+                continue
+            same_kind = ("raises" in sres) == ("raises" in res)
+            if not same_kind or ("ok" in sres and sres["ok"] != res.get("ok")):
+                ctx.disagree(c, res, sres, what="binary and source-level shadow of compiled.pyx differ")
         if i in mouts:
             mo = mouts[i]
             if not mo.startswith("ok "):
@@ -165,6 +227,13 @@ def run_unsafe(ctx, case):
     observed = outs[0] if outs else {"died": rc}
     ctx.case(case, True)
     ctx.hit("unsafe-class")
+    sres = shadow_run(case)
+    if sres is not None:
+        ctx.hit("shadow-executed")
+        ctx.hit("unsafe:shadow-" + next(iter(sres)))
+        if "oob" in sres:
+            ctx.fail(case, judge(case, sres), impl={"shadow execution of compiled.pyx (source)": sres, "binary": observed if outs else {"died": rc}}, model="oob")
+            return
     if "raises" in observed:
         ctx.hit("unsafe:raised")
         return  # a Python exception: what the property asks for
